@@ -243,8 +243,16 @@ func checkC02(cx *Ctx, r *Report) {
 		}
 		r.checkSources("R-VFG", fmt.Sprintf("sso:CreateAuthRequest:arg%d", a.idx), w.InstrPos(sites[0]), ls, []string{a.want, "const:"}, []string{a.want}, true)
 		// it is a load of the Response field
-		p := fx.path(sites[0].Common().Args[a.idx])
-		r.Check(strings.HasSuffix(fx.T(p), "<provider.Response>."+a.fld), "R-VFG", fmt.Sprintf("sso:CreateAuthRequest:arg%d:same-field", a.idx), w.InstrPos(sites[0]), "is Response."+a.fld+", the field the selection result was stored to", "the value persisted is not Response."+a.fld+" (got "+p+"): the pair persisted can differ from the pair selected")
+		p := ""
+		sameField := true
+		for _, av := range fx.throughWrapperParams(sites[0].Common().Args[a.idx], 0) {
+			p = fx.path(av)
+			if !strings.HasSuffix(fx.T(p), "<provider.Response>."+a.fld) {
+				sameField = false
+				break
+			}
+		}
+		r.Check(sameField && p != "", "R-VFG", fmt.Sprintf("sso:CreateAuthRequest:arg%d:same-field", a.idx), w.InstrPos(sites[0]), "is Response."+a.fld+", the field the selection result was stored to", "the value persisted is not Response."+a.fld+" (got "+p+"): the pair persisted can differ from the pair selected")
 	}
 	// the pair is one entry: both results of the selection come from the same element (shared with C16)
 	cx.checkSelectionPairs(r)
